@@ -344,4 +344,27 @@ CATALOGUE = [
     dict(id="c06-binary-operands-swapped", props=["C06"], file=TR + "afm_reader.py", rule="C06-",
          old="            result.left = self.build_ast_node(expression.expression()[0], prefix)\n            result.right = self.build_ast_node(expression.expression()[1], prefix)",
          new="            result.left = self.build_ast_node(expression.expression()[1], prefix)\n            result.right = self.build_ast_node(expression.expression()[0], prefix)"),
+    # ---- C09 ------------------------------------------------------------------------------------
+    dict(id="c09-mandatory-presence", props=["C09"], file=TR + "featureide_reader.py", rule="C09-FIDE",
+         old='child.attrib.get(FeatureIDEReader.ATTRIB_MANDATORY) == "true"', new='FeatureIDEReader.ATTRIB_MANDATORY in child.attrib'),
+    dict(id="c09-disj-two-operands", props=["C09"], file=TR + "featureide_reader.py", rule="C09-FOLD",
+         old="            operands = [self._parse_rule(operand).root for operand in rule]", new="            operands = [self._parse_rule(operand).root for operand in rule][:2]"),
+    dict(id="c09-last-constraints-section", props=["C09"], file=TR + "featureide_reader.py", rule="C09-FIDE",
+         old="        return FeatureModel(root=root, constraints=constraints_list)", new="        return FeatureModel(root=root, constraints=constraints)"),
+    dict(id="c09-fama-minmax-swapped", props=["C09"], file=TR + "xml_reader.py", rule="C09-",
+         old="                    relation.card_min = int(str(child.attrib.get('min')))\n                    relation.card_max = int(str(child.attrib.get('max')))\n                else:\n                    print(\"This XML contains non supported elements\", file=sys.stderr)\n        else:",
+         new="                    relation.card_min = int(str(child.attrib.get('max')))\n                    relation.card_max = int(str(child.attrib.get('min')))\n                else:\n                    print(\"This XML contains non supported elements\", file=sys.stderr)\n        else:"),
+    dict(id="c09-fama-excludes-as-requires", props=["C09"], file=TR + "xml_reader.py", rule="C09-FAMA",
+         old="            operator_type = ASTOperation.EXCLUDES", new="            operator_type = ASTOperation.REQUIRES"),
+    dict(id="c09-fama-parent-none", props=["C09", "C02"], file=TR + "xml_reader.py", rule="C0",
+         old="        feature = Feature(name, [], parent=parent)", new="        feature = Feature(name, [], parent=None)"),
+    dict(id="c09-glencoe-optional-ignored", props=["C09"], file=TR + "glencoe_reader.py", rule="C09-GLENCOE",
+         old="                    card_min = 0 if optional else 1", new="                    card_min = 1"),
+    dict(id="c09-glencoe-genor-max-n", props=["C09"], file=TR + "glencoe_reader.py", rule="C09-KEYFLOW",
+         old='                    card_max = features_info[feature_id]["max"]', new='                    card_max = len(children)'),
+    dict(id="c09-glencoe-no-else", props=["C09"], file=TR + "glencoe_reader.py", rule="C09-UNSUPPORTED",
+         old='                else:\n                    raise FlamaException(f"Invalid feature type in Glencoe model: {feature_type}")\n', new=''),
+    dict(id="c09-afm-optional-bracket-as-mandatory", props=["C09", "C06"], file=TR + "afm_reader.py", rule="C0",
+         old="            if isinstance(child_node, AFMParser.Optional_specContext):\n                feature = Feature(child_node.WORD().getText(), [])\n                relation = Relation(parent_feature, [feature], 0, 1)",
+         new="            if isinstance(child_node, AFMParser.Optional_specContext):\n                feature = Feature(child_node.WORD().getText(), [])\n                relation = Relation(parent_feature, [feature], 1, 1)"),
 ]
